@@ -567,6 +567,34 @@ var c02amps = []c02amp{
 		w.raw(otCoverageFull()...)
 		return w.b
 	}},
+	{"gdef-k-markglyphsets-overlapping-ranges", dGdef, func(size int, th bool) []byte {
+		// k mark glyph sets share one format 2 coverage table whose m range
+		// records all span 0..0xFFFF (coverage indices 0, 65536 mod 2^16, ...):
+		// a reader which accepts overlapping ranges fills the same 65536
+		// entries m times per set
+		k := pick3(size, 2, 4, 16)
+		m := pick3(size, 100, 2000, 42000)
+		w := &bw{}
+		w.u16(1, 2, 0, 0, 0, 0, 14)
+		w.u16(1, k)
+		for i := 0; i < k; i++ {
+			w.u32(4 + 4*k)
+		}
+		w.u16(2, m)
+		for i := 0; i < m; i++ {
+			w.u16(0, 0xFFFF, 0)
+		}
+		return w.b
+	}},
+	{"coverage-set-overlapping-ranges", dCovSet, func(size int, th bool) []byte {
+		m := pick3(size, 100, 2000, 42000)
+		w := &bw{}
+		w.u16(2, m)
+		for i := 0; i < m; i++ {
+			w.u16(0, 0xFFFF, 0)
+		}
+		return w.b
+	}},
 	{"gdef-classdef-reset-ranges", dGdef, func(size int, th bool) []byte {
 		w := &bw{}
 		w.u16(1, 0, 12, 0, 0, 12)
